@@ -777,6 +777,22 @@ class SymPrinter:
                 if pc2 is not None:
                     res.append((C(needle[1] in bits), env, out, pc2))
             return res
+        if decl == "core::iter::traits::iterator::Iterator::skip" and a0[0] == "symiter" and args[1][0] == "C" and isinstance(args[1][1], int):
+            return one(("symiter", a0[1], a0[2] + args[1][1], a0[3]))
+        if decl == "core::ops::index::Index::index" and a0[0] == "S" and (a0[2].startswith("[") or a0[2].startswith("alloc::vec::Vec<")) and args[1][0] == "C" and isinstance(args[1][1], int) and not isinstance(args[1][1], bool):
+            # list[i] with a constant index: defined when the list is long enough (else the printer panics)
+            base, off = self.slice_base(a0[1])
+            i_ = off + args[1][1]
+            if i_ > 1:
+                raise Unmodelled("constant index %d beyond the length abstraction" % i_)
+            pc2 = self.assume(pc, ("len>", base, i_), True)
+            if pc2 is None:
+                self.panics.append((pc, lib.where_of(fn, t)))
+                return []
+            pcf = self.assume(pc, ("len>", base, i_), False)
+            if pcf is not None:
+                self.panics.append((pcf, lib.where_of(fn, t)))
+            return [(S(("elem", base, i_), self.elem_ty(a0[2])), env, out, pc2)]
         if name == "core::slice::<impl [T]>::contains" and a0[0] == "S" and (a0[2].startswith("[") or a0[2].startswith("alloc::vec::Vec<")):
             # exists i: list[i] == needle, over the abstract lengths {0, 1, >=2 (first two elements)}
             base, off = self.slice_base(a0[1])
